@@ -230,6 +230,25 @@ def shard_accessor(spec, R):
                 if not np.array_equal(out[a, b], e):
                     R.violation("C20:accessor", "whitint differs from the kernel on the same pixel", {"x": cube[a, b], "template": template, "labels": labels})
                 check_case(R, cube[a, b], template, labels, "roll", pos)
+        if it % 4 == 1:
+            # dask-backed cube: the lazy result equals the eager one; two lazy results over the same cube and template
+            # with different labelings, evaluated in one graph, each keep their own period means
+            import dask
+
+            labels_b = np.concatenate([labels[:1], labels[:-1]])  # every period boundary one day later
+            try:
+                dd = da.transpose(*order).chunk({"time": -1, "y": 1})
+                la = dd.hdc.whit.whitint(labels, template)
+                lb = dd.hdc.whit.whitint(labels_b, template)
+                ga, gb = dask.compute(la, lb, scheduler="synchronous")
+                eb = da.transpose(*order).hdc.whit.whitint(labels_b, template)
+                R.count("accessor_dask_joint_graphs")
+                if not np.array_equal(ga.transpose("y", "x", "newtime").values, out):
+                    R.violation("C20:accessor-dask", "lazy whitint (first of two results in one graph) differs from the eager result", dict(case, dask=True))
+                elif not np.array_equal(gb.transpose("y", "x", "newtime").values, eb.transpose("y", "x", "newtime").values):
+                    R.violation("C20:accessor-dask", "lazy whitint with another labeling (second of two results in one graph) differs from its eager result", dict(case, dask=True, labels_b=labels_b))
+            except Exception as e:
+                R.violation("C20:accessor-dask", f"whitint on a dask-backed cube raises {type(e).__name__}: {str(e)[:140]}", dict(case, dask=True))
         if it % 5 == 0:
             try:
                 da.astype("float32").hdc.whit.whitint(labels, template)
